@@ -272,6 +272,12 @@ func (en *env) typeOf(e ast.Expr) ty {
 			if s, ok := en.p.sigs[id.Name]; ok {
 				return s.result
 			}
+			if (id.Name == "min" || id.Name == "max") && len(x.Args) == 2 { // Go 1.21 builtins
+				if t := en.typeOf(x.Args[0]); t.kind != "untyped" {
+					return t
+				}
+				return en.typeOf(x.Args[1])
+			}
 			bail("call to %s outside the fragment", id.Name)
 		}
 		if se, ok := x.Fun.(*ast.SelectorExpr); ok {
@@ -392,6 +398,9 @@ func (en *env) expr(e ast.Expr) string {
 			}
 			if s, ok := en.p.sigs[id.Name]; ok {
 				return en.call(s, nil, x.Args)
+			}
+			if (id.Name == "min" || id.Name == "max") && len(x.Args) == 2 {
+				return "(Z." + id.Name + " " + en.expr(x.Args[0]) + " " + en.expr(x.Args[1]) + ")"
 			}
 		}
 		if se, ok := x.Fun.(*ast.SelectorExpr); ok {
@@ -761,8 +770,8 @@ func translate(repo, mod, file string, names []string) (string, []string) {
 			body := en.stmts(fd.Body.List, sig.result, 0)
 			pos := fset.Position(fd.Pos())
 			rel, _ := filepath.Rel(repo, pos.Filename)
-			defs = append(defs, fmt.Sprintf("(* %s:%d  func %s *)\nDefinition %s %s : %s :=\n  %s.\n",
-				rel, pos.Line, n, sig.coqName, strings.Join(params, " "), coqType(sig.result), body))
+			defs = append(defs, fmt.Sprintf("(* %s  func %s *)\nDefinition %s %s : %s :=\n  %s.\n",
+				rel, n, sig.coqName, strings.Join(params, " "), coqType(sig.result), body))
 			report = append(report, fmt.Sprintf("go2v: %s: translated %s (%s:%d)", mod, n, rel, pos.Line))
 		}()
 	}
